@@ -281,19 +281,30 @@ def check(case):
         if np.max(np.abs(qk - q_ref[0])) > 1e-6:
             nontriv += 1
         dmax = 0.0
+        dq_max = du_max = 0.0
+        rows_off = 0
         matched = 0
         for j in range(k, N + 1):
             i = int(np.argmin(np.abs(t2 - t_ref[j])))
             if abs(t2[i] - t_ref[j]) > DT / 100:
                 continue
             matched += 1
-            dmax = max(dmax, float(np.max(np.abs(q2[i] - q_ref[j]))), float(np.max(np.abs(u2[i] - u_ref[j]))))
+            dq_, du_ = float(np.max(np.abs(q2[i] - q_ref[j]))), float(np.max(np.abs(u2[i] - u_ref[j])))
+            dq_max, du_max = max(dq_max, dq_), max(du_max, du_)
+            rows_off += max(dq_, du_) > TOL
+            dmax = max(dmax, dq_, du_)
+        # smallest |g_N| over the remaining rows of the uninterrupted run (a contact closed up to rounding)
+        min_gN = None
+        if ref_sys.nla_N:
+            with quiet():
+                min_gN = float(min(np.min(np.abs(ref_sys.g_N(t_ref[j], q_ref[j]))) for j in range(k, N + 1)))
         if matched < N - k:
             fails.append({"site": "second leg does not reach the final time", "msg": f"{letters} k={k}: {matched} of {N - k + 1} instants", "data": dict(letters, k=k)})
         max_traj = max(max_traj, dmax)
         if dmax > TOL:
             fails.append({"site": "restarted trajectory differs from the uninterrupted run", "msg": f"{letters} k={k}: max deviation {dmax:.3e}",
-                          "data": dict(letters, k=k, dev=dmax, rel_angle_at_split=rel_angle)})
+                          "data": dict(letters, k=k, dev=dmax, dev_q=dq_max, dev_u=du_max, rows_differing=int(rows_off), min_abs_g_N_after_split=min_gN,
+                                       rel_angle_at_split=rel_angle)})
     seen, cnt = {}, {}
     for f in fails:
         cnt[f["site"]] = cnt.get(f["site"], 0) + 1
